@@ -164,10 +164,20 @@ pub fn write_fault_sweep(ctx: &Ctx, f: &dyn Fmt, rf: &Reference) -> R {
                 bail_v!(ctx, "not_a_prefix", &format!("{name}.writer/prefix"), "sink failing at call {k} holds {} bytes that are not a prefix of the fault-free output (first difference at {})", before.len(), first_diff(before, &rf.bytes));
             }
         }
-        if w.finish_ok_after_error && fired && (!f.deterministic() || data != *rf.bytes) {
-            bail_v!(ctx, "success_without_all_bytes", &format!("{name}.writer/finish_after_error"),
-                "sink failed at call {k} (variant {variant}: persistent={persistent} zero={}), {} returned the error, and the finishing call then reported success although the sink holds {} bytes that are not the fault-free output ({} bytes)",
-                variant >= 4, w.failed_call.unwrap_or("?"), st.data.len(), rf.bytes.len());
+        if w.finish_ok_after_error && fired {
+            // the caller went on to finish after an error and the writer reported success: then the sink must hold a
+            // readable file / stream with (at least) every batch whose write() had returned Ok, and nothing that was not written
+            let left = Arc::new(f.normalise(ctx, st.data.clone()));
+            let r = f.read(ctx, left.clone(), Plan::none());
+            ctx.count("executions", 1);
+            let err_ok = r.err.is_none() || (f.trunc() == Trunc::PrefixThenErrOrEnd && r.rows.len() >= w.acked_rows);
+            if !err_ok || r.invalid.is_some() || r.rows.len() < w.acked_rows || !row_prefix(&r.rows, &rf.rows) {
+                bail_v!(ctx, "success_without_all_bytes", &format!("{name}.writer/finish_after_error"),
+                    "sink failed once at call {k} (variant {variant}: zero={}), {}() returned the error after batches with {} rows had been accepted, the finishing call then reported success; the sink holds {} bytes (fault-free output: {}) that read back as {} rows{}{}",
+                    variant >= 4, w.failed_call.unwrap_or("?"), w.acked_rows, left.len(), rf.bytes.len(), r.rows.len(),
+                    r.err.as_ref().map(|e| format!(", then error: {e}")).unwrap_or_default(),
+                    if row_prefix(&r.rows, &rf.rows) { "" } else { " that are not a prefix of the written rows" });
+            }
         }
         if w.finish_ok_after_error {
             ctx.probe("finish_ok_after_error");
